@@ -67,6 +67,7 @@ structure Case where
   tv : Array String := #[]
   q : Array (Bool × String) := #[]
   sel : String := ""
+  alias : Std.HashMap String String := {}   -- output pin name -> first output pin on the same driver
 
 def optStr (s : String) : Str := if s == "-" then [] else s.toList
 
@@ -343,18 +344,24 @@ def checkCase (c : Case) (st0 : Stats) : IO Stats := do
         if !ok then
           fail "PROPFAIL" s!"kind=tv-after-edge-on-edge statement {String.ofList x.name} (callback {x.tag}) was recorded after the flush at {g.stop}s and is written at that time"
           st := { st with propfails := st.propfails + 1 }
+  -- several output pins on one driver: a CHECK may name any of them (the value is the same); compare under the first name
+  let tvReal : Array String := Id.run do
+    let mut out : Array String := #[]
+    for l in c.tv do
+      if out.size > 0 && c.tv[out.size - 1]! == "CHECK" then out := out.push (c.alias.getD l l) else out := out.push l
+    return out
   let tvModel := (groups.flatMap TV.Group.lines).toArray
   let mut tvDiff := false
-  if tvModel.size != c.tv.size then
+  if tvModel.size != tvReal.size then
     tvDiff := true
-    fail "DIFF" s!"what=tv-line-count model={tvModel.size} impl={c.tv.size}"
-  for i in [0:min tvModel.size c.tv.size] do
+    fail "DIFF" s!"what=tv-line-count model={tvModel.size} impl={tvReal.size}"
+  for i in [0:min tvModel.size tvReal.size] do
     if !tvDiff then
       let m := String.ofList tvModel[i]!
-      if m != c.tv[i]! then
+      if m != tvReal[i]! then
         tvDiff := true
-        fail "DIFF" s!"what=tv-line line={i + 1} model=[{m}] impl=[{c.tv[i]!}]"
-  st := { st with ops := st.ops + c.tv.size, diffs := st.diffs + (if tvDiff then 1 else 0), tvLines := st.tvLines + c.tv.size,
+        fail "DIFF" s!"what=tv-line line={i + 1} model=[{m}] impl=[{tvReal[i]!}]"
+  st := { st with ops := st.ops + tvReal.size, diffs := st.diffs + (if tvDiff then 1 else 0), tvLines := st.tvLines + tvReal.size,
                   tvGroups := st.tvGroups + groups.length }
   for g in groups do
     st := { st with tvChecks := st.tvChecks + g.checks.length, tvSets := st.tvSets + g.sets.length, tvRsts := st.tvRsts + g.rsts.length,
@@ -363,17 +370,17 @@ def checkCase (c : Case) (st0 : Stats) : IO Stats := do
   -- same statement skeleton: model and implementation file agree line by line except for the amounts after ADV; then the model's
   -- groups (exact targets, flush intervals) still describe the implementation's statements and adv_no_drift can be evaluated on the
   -- implementation's own ADV sums
-  let mut sameSkeleton := tvModel.size == c.tv.size
+  let mut sameSkeleton := tvModel.size == tvReal.size
   if sameSkeleton then
-    for i in [0:c.tv.size] do
-      if sameSkeleton && String.ofList tvModel[i]! != c.tv[i]! && !(i > 0 && c.tv[i - 1]! == "ADV" && String.ofList tvModel[i - 1]! == "ADV") then
+    for i in [0:tvReal.size] do
+      if sameSkeleton && String.ofList tvModel[i]! != tvReal[i]! && !(i > 0 && tvReal[i - 1]! == "ADV" && String.ofList tvModel[i - 1]! == "ADV") then
         sameSkeleton := false
   -- written time of the REAL file never lags the exact target by a picosecond or more, and never runs ahead (adv_no_drift)
   let mut realAdv : Array Nat := #[]
   let mut li := 0
-  while li + 1 < c.tv.size do
-    if c.tv[li]! == "ADV" then
-      realAdv := realAdv.push (c.tv[li + 1]!).toNat!
+  while li + 1 < tvReal.size do
+    if tvReal[li]! == "ADV" then
+      realAdv := realAdv.push (tvReal[li + 1]!).toNat!
       li := li + 2
     else li := li + 3
   let mut written : Nat := 0
@@ -388,6 +395,40 @@ def checkCase (c : Case) (st0 : Stats) : IO Stats := do
       fail "PROPFAIL" s!"kind=tv-drift group={gi} written={written}ps target={g.target}s interval=({g.start}s,{g.stop}s) statements={g.checks.length + g.sets.length + g.rsts.length}: the implementation's cumulative ADV is not within [target - 1ps, target] (adv_no_drift)"
       st := { st with propfails := st.propfails + 1 }
     if w != g.target then st := { st with tvNonzeroRemainders := st.tvNonzeroRemainders + 1 }
+  -- every reset line that is a port of the design and that the simulator asserted / released must be driven by the test bench:
+  -- the first RST statement of that name in the REAL file carries the first reported value, the last one the last reported value
+  let mut rstTruth : Std.HashMap String (Bool × Bool) := {}
+  let mut rstOrder : Array String := #[]
+  for e in c.tevs do
+    match e with
+    | .rst _ name v =>
+      let nm := String.ofList name
+      match rstTruth.get? nm with
+      | some (f, _) => rstTruth := rstTruth.insert nm (f, v)
+      | none => rstTruth := rstTruth.insert nm (v, v); rstOrder := rstOrder.push nm
+    | _ => pure ()
+  let mut rstFile : Std.HashMap String (String × String) := {}
+  let mut ri := 0
+  while ri + 2 < c.tv.size + 1 do
+    if ri + 1 < c.tv.size && c.tv[ri]! == "ADV" then ri := ri + 2
+    else if ri + 2 < c.tv.size then
+      if c.tv[ri]! == "RST" then
+        let nm := c.tv[ri + 1]!
+        let v := c.tv[ri + 2]!
+        rstFile := rstFile.insert nm (match rstFile.get? nm with | some (f, _) => (f, v) | none => (v, v))
+      ri := ri + 3
+    else ri := ri + 3
+  for nm in rstOrder do
+    let (f, l) := rstTruth.getD nm (false, false)
+    let b (x : Bool) := if x then "1" else "0"
+    match rstFile.get? nm with
+    | none =>
+      fail "PROPFAIL" s!"kind=tv-reset-not-driven reset={nm}: the simulator asserted/released this reset port ({b f} … {b l}) but the test vectors contain no RST statement for it"
+      st := { st with propfails := st.propfails + 1 }
+    | some (ff, fl) =>
+      if ff != b f || fl != b l then
+        fail "PROPFAIL" s!"kind=tv-reset-value reset={nm} simulator first/last={b f}/{b l} file first/last={ff}/{fl}"
+        st := { st with propfails := st.propfails + 1 }
   -- (iii) replay outcomes; classify failures by the group the statement belongs to
   -- root cause "recorded after the clock edge, written exactly on it": a statement recorded in the AFTER phase of a time step whose
   -- next flush (re-entered time step, or the destructor) happens at the same simulation time, i.e. with an empty interval
@@ -451,6 +492,7 @@ def feed (line : String) (c : Case) (st : Stats) : IO (Case × Stats) := do
   match toks with
   | "case" :: k :: _ => return ({ id := k }, { st with cases := st.cases + 1 })
   | ["sel", s] => return ({ c with sel := s }, st)
+  | ["alias", a, b] => return ({ c with alias := c.alias.insert a b }, st)
   | ["sig", _, w, bv, hid, name, path, mem] =>
     let m := if mem == "-" then none else match parsePath mem with | k :: _ => some k | [] => none
     return ({ c with sigs := c.sigs.push { width := w.toNat!, isBVec := bv == "1", hidden := hid == "1", name := optStr name, path := parsePath path, mem := m } }, st)
